@@ -263,6 +263,39 @@ def _ops_case(case):
         "equal": lambda a, b: torch.equal(a, b),
         "numpy": lambda a, b: a.numpy().tolist(),
     }
+    # binary operations between two packed tensors, including pairs whose payloads have the same number of packed rows
+    # but whose unpacked leading dimensions differ (the longer one padded with zero rows)
+    for L in range(1, case["maxL"] + 1):
+        for L2 in range(L, min(case["maxL"], L + 8 // bits) + 1):
+            for name, fn in (("equal_pp", lambda a, b: torch.equal(a, b)), ("eq_pp", lambda a, b: (a == b) if a.shape == b.shape else None),
+                             ("add_pp", lambda a, b: (a + b) if a.shape == b.shape else None)):
+                only = case.get("only")
+                if only and (only["op"] != name or only["L"] != L or only.get("L2") != L2):
+                    continue
+                t1 = _values("tagged", bits, L, (3,))
+                t2 = torch.zeros((L2, 3), dtype=torch.uint8)
+                t2[:L] = t1
+                if name != "equal_pp" and L2 == L:
+                    t2 = (t2 + 1) % (1 << bits)
+                try:
+                    ref = fn(t1, t2)
+                except Exception:
+                    continue
+                if ref is None:
+                    continue
+                evals += 1
+                fields = {"kind": "ops", "bits": bits, "op": name}
+                c = dict(case, only={"op": name, "L": L, "L2": L2, "trail": [3]})
+                try:
+                    got = fn(PackedTensor.pack(t1.clone(), bits), PackedTensor.pack(t2.clone(), bits))
+                except Exception as e:  # noqa
+                    vs.append(violation(PID, c, fields, f"op {name} on two packed tensors (L={L},{L2}) raised {type(e).__name__}: {e}"))
+                    continue
+                if isinstance(got, PackedTensor):
+                    got = got.unpack()
+                same = (got == ref) if not isinstance(ref, torch.Tensor) else (isinstance(got, torch.Tensor) and got.shape == ref.shape and torch.equal(got, ref))
+                if not same:
+                    vs.append(violation(PID, c, fields, f"op {name} on two packed tensors with leading dims {L} and {L2}: result differs from the result on unpacked values"))
     for L in range(1, case["maxL"] + 1):
         for trail in [(), (3,), (2, 2)]:
             t = _values("tagged", bits, L, trail)
